@@ -58,8 +58,9 @@ def r101(chk, w):
         for sname, c in o.cons.items():
             if c[0] == "varis" and c[1] == C.CB:
                 label = c[2]
-        ys = [e for e in o.trace if e[0] == "push" and e[2] == ys_p]
-        xs = [e for e in o.trace if e[0] == "push" and e[2] == xs_p]
+        tr = o.trace[len(pre[0].trace):]
+        ys = [e for e in tr if e[0] == "push" and e[2] == ys_p]
+        xs = [e for e in tr if e[0] == "push" and e[2] == xs_p]
         nz = forms.Normalizer(it, o)
         yv = tuple(forms.show(nz.form(e[3])) for e in ys)
         labels = [label] if label else [v["name"] for v in w.adt(C.CB)["variants"]]
